@@ -625,14 +625,24 @@ def run_suite(seed, tier):
                 n = lo + j % (hi - lo + 1)
                 steps = [0, 4, 9, 2][j % 4] if family in F.ADAPTIVE else 0
                 same = kind == 'intbox' and j % 2 == 1
-                p0, names, doms, kind_ = Q.build(family, rng, n, steps, ['AR', 'A', 'R', 'AAR'][j % 4],
-                                                 None if j % 3 else 'off', seed=rng.randrange(1000),
-                                                 same_bounds=same)
+                try:
+                    p0, names, doms, kind_ = Q.build(family, rng, n, steps, ['AR', 'A', 'R', 'AAR'][j % 4],
+                                                     None if j % 3 else 'off', seed=rng.randrange(1000),
+                                                     same_bounds=same)
+                except ValueError as e:
+                    S.diverge(family, 'real code raised while adapting', 'build %d' % j, 'no exception', repr(e)[:300])
+                    continue
                 ex = (j == 1) if quick else ('full' if j in (1, 3) else j < 8)
-                run_instance(S, family, p0, names, doms, kind_, exhaustive=ex)
+                try:
+                    run_instance(S, family, p0, names, doms, kind_, exhaustive=ex)
+                except (ValueError, FloatingPointError, ZeroDivisionError, IndexError) as e:
+                    S.diverge(family, 'real code raised', 'instance %d' % j, 'no exception', repr(e)[:300])
             if family in F.ADAPTIVE and family not in Q.EIGEN:
                 for j in range(2 if quick else 10):
-                    run_adaptive_history(S, family, rng.randrange(1 << 30))
+                    try:
+                        run_adaptive_history(S, family, rng.randrange(1 << 30))
+                    except (ValueError, FloatingPointError, ZeroDivisionError, IndexError) as e:
+                        S.diverge(family, 'real code raised', 'adaptive history %d' % j, 'no exception', repr(e)[:300])
         for name in ('uniform_birth', 'normal_birth', 'log_normal_birth'):
             for j in range(4 if quick else 20):
                 b = Q.make_birth(name, rng, 1 + j % 3)
